@@ -334,6 +334,7 @@ pub fn seg_table(w: &[u32; 7]) -> Vec<OpSpec> {
         spec(w[4], S_QUERYALL, &[]),
         spec(w[5], S_PINS, &[0..=31, 0..=11, 0..=4]),
         spec(w[6], S_PQUERY, &[0..=31, 0..=11]),
+        spec((w[1] / 4).max(if w[1] > 0 { 1 } else { 0 }), S_QVAL, &[0..=15, 0..=35]),
     ]
 }
 
@@ -659,6 +660,7 @@ pub fn seg_expire_partial_clear_cases(prop: &'static str) -> BoxedStrategy<Case>
         spec(6, S_QUERY, &[0..=31, 0..=3, 0..=31, 0..=3, 0..=35]),
         spec(3, S_QUERY, &[0..=3, 0..=0, 28..=31, 1..=1, 0..=35]),
         spec(2, S_PQUERY, &[0..=31, 0..=3]),
+        spec(2, S_QVAL, &[0..=7, 0..=35]),
         spec(1, S_QUERYALL, &[]),
         spec(2, S_ADV, &[0..=3]),
     ];
@@ -669,13 +671,22 @@ pub fn seg_expire_partial_clear_cases(prop: &'static str) -> BoxedStrategy<Case>
         spec(3, S_INS, &[0..=31, 0..=3, 0..=31, 0..=3, 1..=4]),
         spec(2, S_ADV, &[0..=2]),
     ];
-    (pick(&doms), ops_strategy(&ins, 1..=7), 1..=7i64, ops_strategy(&looks, 0..=6), 0..=2i64, ops_strategy(&ins, 1..=3), ops_strategy(&after, 3..=14))
-        .prop_map(move |((lo, dlen, rt), a, jump, b, c0, c, d)| {
+    // second wave: everything left expires, then narrow fully consumed looks retire values place by place
+    let narrow = vec![
+        spec(8, S_QVAL, &[0..=7, 0..=0]),
+        spec(4, S_PQUERY, &[0..=31, 0..=3]),
+        spec(2, S_QUERY, &[0..=31, 0..=3, 0..=31, 0..=3, 0..=0]),
+        spec(1, S_ADV, &[0..=1]),
+    ];
+    (pick(&doms), ops_strategy(&ins, 1..=7), 1..=3i64, ops_strategy(&looks, 0..=6), (0..=6i64, ops_strategy(&narrow, 0..=10)), 0..=2i64, ops_strategy(&ins, 1..=3), ops_strategy(&after, 3..=14))
+        .prop_map(move |((lo, dlen, rt), a, jump, b, (jump2, b2), c0, c, d)| {
             let mut k = Case::new(prop, "seg");
             k.set("lo", lo).set("len", dlen).set("rtype", rt);
             k.ops = a;
             k.ops.push(RawOp::new(S_ADV, &[jump]));
             k.ops.extend(b);
+            k.ops.push(RawOp::new(S_ADV, &[jump2]));
+            k.ops.extend(b2);
             k.ops.push(RawOp::new(S_CLEAR, &[c0]));
             k.ops.extend(c);
             k.ops.extend(d);
